@@ -31,6 +31,8 @@ def make(rng, variant):
     over["contraction"] = float(rng.choice([2, 8, 32]))
     if variant in ("PaVeBa", "Auer", "Auer-emp"):
         over["contraction"] = float(rng.choice([4, 16, 64]))
+    if variant == "PaVeBa":
+        over["contraction"] = float(rng.choice([1, 2, 4, 16]))  # wider balls: runs last more than one round
     if runs.VARIANTS[variant]["shape"] == "ell":
         over["K"] = min(over["K"], 6)
     elif rng.random() < 0.12 and variant not in ("PaVeBa",):
